@@ -589,6 +589,9 @@ func c05KeywordLookup(c *Ctx, rule string) {
 		arg := exprKey(ix.Index)
 		upper := strings.HasPrefix(arg, "strings.ToUpper(")
 		raw := strings.Contains(arg, "TokenText()")
+		// the variable the key is read from (`text`, `tok.Text`): whatever name it has, a quote-stripping store into
+		// it that reaches the lookup makes quoted text a keyword
+		keyVar := strings.TrimSuffix(strings.TrimPrefix(arg, "strings.ToUpper("), ")")
 		// which case clause?
 		var arm *ast.CaseClause
 		ast.Inspect(f.Decl.Body, func(y ast.Node) bool {
@@ -611,9 +614,9 @@ func c05KeywordLookup(c *Ctx, rule string) {
 			loc, _ := g.Locate(ix)
 			stripped := false
 			inspectBody(f.Decl.Body, func(y ast.Node) bool {
-				if as, ok := y.(*ast.AssignStmt); ok && len(as.Lhs) == 1 && exprKey(as.Lhs[0]) == "tok.Text" {
+				if as, ok := y.(*ast.AssignStmt); ok && len(as.Lhs) == 1 && len(as.Rhs) == 1 && (exprKey(as.Lhs[0]) == "tok.Text" || exprKey(as.Lhs[0]) == keyVar) {
 					rhs := exprKey(as.Rhs[0])
-					if strings.Contains(rhs, "stripQuotes(") || strings.Contains(rhs, "[1:") {
+					if strings.Contains(rhs, "stripQuotes(") || strings.Contains(rhs, "[1:") || strings.Contains(rhs, "strings.Trim") {
 						if al, ok := g.Locate(as); ok {
 							reach, _ := g.Forward(&al, nil, func(_ ast.Node, at Loc) Verdict {
 								if at == loc {
@@ -657,6 +660,13 @@ func c05KeywordLookup(c *Ctx, rule string) {
 			if len(f.Calls(ifs.Body, false, "sql.stripQuotes")) > 0 {
 				okStrip = true
 			}
+			// the stripping written out (a helper of another name, made transparent): x[1 : len(x)-1]
+			ast.Inspect(ifs.Body, func(y ast.Node) bool {
+				if sl, ok := y.(*ast.SliceExpr); ok && sl.Low != nil && sl.High != nil && exprKey(sl.Low) == "1" && strings.HasSuffix(exprKey(sl.High), ")-1") {
+					okStrip = true
+				}
+				return true
+			})
 		}
 		return true
 	})
